@@ -21,8 +21,9 @@ VARIABLES l, cur, lost, bad, skipped
 
 tvars == <<l, cur, lost, bad, skipped, running, file, reported, last>>
 
-\* JSON arrays arrive as sequences: the rewrite list is compared as a set.
-Norm(r) == [c \in Comps |-> IF c = "rw" THEN {r.rw[i] : i \in DOMAIN r.rw} ELSE r[c]]
+\* JSON arrays arrive as sequences: the rewrite list and the static leases are
+\* compared as sets.
+Norm(r) == [c \in Comps |-> IF c \in {"rw", "leases"} THEN {r[c][i] : i \in DOMAIN r[c]} ELSE r[c]]
 
 Clean(ln) == /\ ln.err = "" /\ Len(ln.effbad) = 0
              /\ DOMAIN ln.rep = Comps /\ DOMAIN ln.file = Comps
